@@ -205,6 +205,27 @@ func (Fees) Check(t *explore.Transition) ([]V, bool) {
 	slack := int64(0)
 	if v, ok := tagOf(r, "tx.commission_conversion"); ok && v == "pool" {
 		slack = 2
+		// with limit orders in the commission pool the conversion walks the book with
+		// floating-point prices (CalculateAddAmountsForPrice): the quote for buying `price`
+		// and the sale of that quote differ by rounding noise; 10^-9 of the price is allowed
+		gas := uint64(inf.GasCoin)
+		for _, p := range par.Export.Pools {
+			if !((p.Coin0 == 0 && p.Coin1 == gas) || (p.Coin1 == 0 && p.Coin0 == gas)) {
+				continue
+			}
+			// the quote is an integer number of gas-coin pips (rounded up twice: pool input and
+			// the 0.1 % burn); each of those pips is worth reserve(BIP)/reserve(gas) base pips
+			rb, rg := obs.Num(p.Reserve0), obs.Num(p.Reserve1)
+			if p.Coin1 == 0 {
+				rb, rg = rg, rb
+			}
+			if rg.Sign() > 0 {
+				slack += 2 * (new(big.Int).Div(rb, rg).Int64() + 1)
+			}
+			if len(p.Orders) > 0 {
+				slack += new(big.Int).Div(price, big.NewInt(1000000000)).Int64()
+			}
+		}
 	}
 	over := new(big.Int).Sub(dRew, want)
 	if over.Sign() < 0 || over.Cmp(big.NewInt(slack)) > 0 {
